@@ -97,6 +97,8 @@ def gen_dataset_cfg(rng, flavor='general', big=False):
     p['attrs'] = rng.random() < 0.3
     p['reordered'] = rng.random() < 0.15
     p['raw'] = rng.random() < 0.5
+    if not p['raw'] and rng.random() < 0.3:
+        cfg['raw_missing'] = True
     if p['raw']:
         cfg['raw'] = {'extra_channels': rng.choice([0, 0, 1, 3]),
                       'dtype': rng.choice(['int16', 'int16', 'float32', 'float64']),
@@ -128,6 +130,13 @@ def gen_dataset_cfg(rng, flavor='general', big=False):
         if cfg['unused_templates'] and rng.random() < 0.4:
             cfg['poison'].append({'name': 'tmpl', 'kind': 'nan_template',
                                   'ids': cfg['unused_templates'][:2]})
+        if rng.random() < 0.15 and not cfg.get('alf_label'):
+            # both the KS and the ALF name of a family, with DIFFERENT contents: which one wins is
+            # left open by the statement, but the answer must not depend on the listing order
+            cfg['dual'] = [f for f in ('stemplates', 'amps', 'chpos', 'chmap')
+                           if rng.random() < 0.5 and (f != 'amps' or p['amps'])]
+        if p['attrs'] and rng.random() < 0.4:
+            cfg['unreadable_attrs'] = rng.choice([['symlink'], ['dir'], ['symlink', 'dir']])
         if p['amps'] and rng.random() < 0.25:
             cfg['poison'].append({'name': 'amps', 'kind': rng.choice(['nan', 'inf', 'mixed']),
                                   'pos': sorted(rng.sample(range(ns), min(ns, rng.randint(2, 3))))})
@@ -464,6 +473,24 @@ def write_dataset(cfg, g, d):
             save('template_feature_spike_ids.npy', g.tf_rows.astype('int64'))
     for k, v in g.attrs.items():
         save('spike_%s.npy' % k, v)
+    for kind in cfg.get('unreadable_attrs') or []:
+        # fault: a per-spike attribute file that cannot be read at load time
+        if kind == 'symlink':
+            (d / 'spike_aaa_dangling.npy').symlink_to(d / 'does_not_exist.npy')
+            (d / 'spike_zzz_dangling.npy').symlink_to(d / 'does_not_exist.npy')
+        else:
+            (d / 'spike_mmm_isdir.npy').mkdir()
+    for fam in cfg.get('dual') or []:
+        other = NAMES[fam][1 if cfg['names'].get(fam, 'ks') == 'ks' else 0]
+        if fam == 'stemplates':
+            alt = np.roll(g.stemplates, 1).astype(dts['ids'])
+        elif fam == 'amps':
+            alt = g.amps + 1.0
+        elif fam == 'chpos':
+            alt = g.pos + 5.0
+        else:
+            alt = g.chmap[::-1].astype(dts['chmap'])
+        save(other, alt)
     if g.attrs:
         save('spike_fail.npy', np.full(cfg['ns'] + 1, 7.0))  # wrong number of spikes
     if g.reordered is not None:
@@ -496,7 +523,10 @@ def write_dataset(cfg, g, d):
             i += m
             dat_paths.append(name)
     lines = []
-    if not dat_paths:
+    if not dat_paths and cfg.get('raw_missing'):
+        # params.py still names the raw file, but it is not there (moved or deleted)
+        lines.append('dat_path = %r' % 'recording_moved_away.dat')
+    elif not dat_paths:
         lines.append('dat_path = []')
     elif len(dat_paths) == 1 and cfg['seed'] % 3:
         lines.append('dat_path = %r' % dat_paths[0])
@@ -524,6 +554,9 @@ def snapshot(d):
         for f in sorted(files):
             p = Path(root) / f
             rel = str(p.relative_to(d))
+            if p.is_symlink():
+                out[rel] = 'symlink->' + os.path.basename(os.readlink(str(p)))
+                continue
             out[rel] = hashlib.sha256(p.read_bytes()).hexdigest()[:24]
     return out
 
